@@ -26,12 +26,13 @@ VARIABLES val, ver, wakers, woken,
           rl, wl, ml,                \* readers of the outer lock, its writer (0 = none), metadata lock holder (0 = none)
           cState, cClones,           \* strong counts
           owner, weak, subscribed,   \* per thread: holds an owner clone / a weak reference / a subscriber
+          gheld,                     \* per thread: guard kept across calls: "none" | "r" | "w"
           obsv,                      \* per thread: observed version of its subscriber
           pc, prog, prog0, res,      \* per thread: pause point, remaining calls, the whole program, results of completed calls
           sched                      \* history: thread ids in the order they stepped
 
-vars == <<val, ver, wakers, woken, rl, wl, ml, cState, cClones, owner, weak, subscribed, obsv, pc, prog, prog0, res, sched>>
-core == <<val, ver, wakers, woken, rl, wl, ml, cState, cClones, owner, weak, subscribed, obsv, pc, prog, res>>
+vars == <<val, ver, wakers, woken, rl, wl, ml, cState, cClones, owner, weak, subscribed, gheld, obsv, pc, prog, prog0, res, sched>>
+core == <<val, ver, wakers, woken, rl, wl, ml, cState, cClones, owner, weak, subscribed, gheld, obsv, pc, prog, res>>
 
 (* programs: sequences of call names *)
 Menu(t) ==
@@ -47,6 +48,10 @@ Menu(t) ==
             (CASE t = 1 -> {<<"Set">>, <<"Set", "Set">>}
                [] t = 2 -> {<<"Set", "DropOwner">>, <<"Subscribe", "PollNext">>}
                [] OTHER -> {<<"PollNext", "PollNext">>, <<"PollNext">>})
+      [] ProgChoice = "guards" ->  \* a guard kept across calls against a writer / reader and a polling subscriber
+            (CASE t = 1 -> {<<"Write", "GSet", "DropGuard">>, <<"Read", "DropGuard", "Set">>}
+               [] t = 2 -> {<<"Set">>, <<"Get">>, <<"Set", "Get">>}
+               [] OTHER -> {<<"PollNext">>})
       [] ProgChoice = "uniq" ->    \* the unique Observable (thread 1) is set / dropped against two polling subscribers
             (CASE t = 1 -> {<<"DropOwner">>, <<"Set", "DropOwner">>, <<"Set", "Set">>}
                [] t = 2 -> {<<"PollNext", "PollNext">>}
@@ -66,6 +71,7 @@ Init ==
     /\ subscribed = [t \in Threads |-> InitSub(t)]
     /\ cClones = Cardinality({t \in Threads : InitOwner(t)})
     /\ cState = Cardinality({t \in Threads : InitOwner(t)}) + Cardinality({t \in Threads : InitSub(t)})
+    /\ gheld = [t \in Threads |-> "none"]
     /\ obsv = [t \in Threads |-> 1]
     /\ pc = [t \in Threads |-> "op"]
     /\ prog \in [Threads -> UNION {Menu(t) : t \in Threads}] /\ \A t \in Threads : prog[t] \in Menu(t)
@@ -98,24 +104,24 @@ CloseEffect == ver' = 0 /\ woken' = woken \cup wakers /\ wakers' = {}
 UDropStart(t) ==
     /\ IsUnique /\ pc[t] = "op" /\ Cur(t) = "DropOwner" /\ owner[t]
     /\ pc' = [pc EXCEPT ![t] = "uclose:before_meta_lock"]
-    /\ UNCHANGED <<val, ver, wakers, woken, rl, wl, ml, cState, cClones, owner, weak, subscribed, obsv, prog, res>>
+    /\ UNCHANGED <<val, ver, wakers, woken, rl, wl, ml, cState, cClones, owner, weak, subscribed, gheld, obsv, prog, res>>
 
 UDropClose(t) ==
     /\ pc[t] = "uclose:before_meta_lock" /\ ml = 0
     /\ CloseEffect
     /\ owner' = [owner EXCEPT ![t] = FALSE] /\ cState' = cState - 1 /\ cClones' = cClones - 1
     /\ Finish(t, ROK)
-    /\ UNCHANGED <<val, rl, wl, ml, weak, subscribed, obsv>>
+    /\ UNCHANGED <<val, rl, wl, ml, weak, subscribed, gheld, obsv>>
 
 DropStart(t) ==
-    /\ ~IsUnique /\ pc[t] = "op" /\ Cur(t) = "DropOwner" /\ owner[t]
+    /\ ~IsUnique /\ pc[t] = "op" /\ Cur(t) = "DropOwner" /\ owner[t] /\ gheld[t] = "none"
     /\ IF DropDecisionAtomic
        THEN (* the reference to the clone counter is given up here, atomically with the decision *)
             /\ cClones' = cClones - 1
             /\ pc' = [pc EXCEPT ![t] = IF cClones = 1 THEN "drop:decided_last" ELSE "drop:before_release"]
        ELSE /\ UNCHANGED cClones
             /\ pc' = [pc EXCEPT ![t] = IF cClones = 1 THEN "drop:decided_last" ELSE "drop:before_release"]
-    /\ UNCHANGED <<val, ver, wakers, woken, rl, wl, ml, cState, owner, weak, subscribed, obsv, prog, res>>
+    /\ UNCHANGED <<val, ver, wakers, woken, rl, wl, ml, cState, owner, weak, subscribed, gheld, obsv, prog, res>>
 
 (* decided_last -> close:before_meta_lock : try_read().unwrap() *)
 DropTryRead(t) ==
@@ -128,7 +134,7 @@ DropTryRead(t) ==
             /\ cState' = cState - 1 /\ cClones' = IF DropDecisionAtomic THEN cClones ELSE cClones - 1
             /\ prog' = [prog EXCEPT ![t] = <<>>] /\ res' = [res EXCEPT ![t] = Append(@, RPANIC)]
             /\ pc' = [pc EXCEPT ![t] = "done"]
-    /\ UNCHANGED <<val, ver, wakers, woken, wl, ml, weak, subscribed, obsv>>
+    /\ UNCHANGED <<val, ver, wakers, woken, wl, ml, weak, subscribed, gheld, obsv>>
 
 (* close:before_meta_lock -> drop:before_release *)
 DropClose(t) ==
@@ -136,7 +142,7 @@ DropClose(t) ==
     /\ CloseEffect
     /\ rl' = rl \ {t}
     /\ pc' = [pc EXCEPT ![t] = "drop:before_release"]
-    /\ UNCHANGED <<val, wl, ml, cState, cClones, owner, weak, subscribed, obsv, prog, res>>
+    /\ UNCHANGED <<val, wl, ml, cState, cClones, owner, weak, subscribed, gheld, obsv, prog, res>>
 
 (* drop:before_release -> next call : the two Arcs are released *)
 DropRelease(t) ==
@@ -145,37 +151,70 @@ DropRelease(t) ==
     /\ cState' = cState - 1
     /\ cClones' = IF DropDecisionAtomic THEN cClones ELSE cClones - 1
     /\ Finish(t, ROK)
-    /\ UNCHANGED <<val, ver, wakers, woken, rl, wl, ml, weak, subscribed, obsv>>
+    /\ UNCHANGED <<val, ver, wakers, woken, rl, wl, ml, weak, subscribed, gheld, obsv>>
 
 (******************************** Set ***************************************)
 SetStart(t) ==      \* op -> set:locked (write lock acquired)
-    /\ pc[t] = "op" /\ Cur(t) = "Set" /\ owner[t] /\ CanWriteLock(t)
+    /\ pc[t] = "op" /\ Cur(t) = "Set" /\ owner[t] /\ gheld[t] = "none" /\ CanWriteLock(t)
     /\ wl' = t /\ pc' = [pc EXCEPT ![t] = "set:locked"]
-    /\ UNCHANGED <<val, ver, wakers, woken, rl, ml, cState, cClones, owner, weak, subscribed, obsv, prog, res>>
+    /\ UNCHANGED <<val, ver, wakers, woken, rl, ml, cState, cClones, owner, weak, subscribed, gheld, obsv, prog, res>>
 
 SetStore(t) ==      \* set:locked -> set:before_wake
     /\ pc[t] = "set:locked"
     /\ val' = 100 * t + Len(res[t]) + 1 /\ ver' = ver + 1
     /\ res' = [res EXCEPT ![t] = Append(@, val)]       \* the previous value is the result
     /\ pc' = [pc EXCEPT ![t] = "set:before_wake"]
-    /\ UNCHANGED <<wakers, woken, rl, wl, ml, cState, cClones, owner, weak, subscribed, obsv, prog>>
+    /\ UNCHANGED <<wakers, woken, rl, wl, ml, cState, cClones, owner, weak, subscribed, gheld, obsv, prog>>
 
 SetWake(t) ==       \* set:before_wake -> next call
     /\ pc[t] = "set:before_wake"
-    /\ woken' = woken \cup wakers /\ wakers' = {} /\ wl' = 0
+    /\ woken' = woken \cup wakers /\ wakers' = {} /\ wl' = (IF gheld[t] = "w" THEN wl ELSE 0)
     /\ prog' = [prog EXCEPT ![t] = Tail(@)]
     /\ pc' = [pc EXCEPT ![t] = IF Len(prog[t]) = 1 THEN "done" ELSE "op"]
-    /\ UNCHANGED <<val, ver, rl, ml, cState, cClones, owner, weak, subscribed, obsv, res>>
+    /\ UNCHANGED <<val, ver, rl, ml, cState, cClones, owner, weak, subscribed, gheld, obsv, res>>
+
+(****************************** guards kept across calls ********************)
+WriteGuard(t) ==    \* SharedObservable::write(): no pause point inside; the guard stays alive after the call
+    /\ pc[t] = "op" /\ Cur(t) = "Write" /\ owner[t] /\ gheld[t] = "none" /\ CanWriteLock(t)
+    /\ wl' = t /\ gheld' = [gheld EXCEPT ![t] = "w"]
+    /\ Finish(t, val)
+    /\ UNCHANGED <<val, ver, wakers, woken, rl, ml, cState, cClones, owner, weak, subscribed, obsv>>
+
+ReadGuard(t) ==
+    /\ pc[t] = "op" /\ Cur(t) = "Read" /\ owner[t] /\ gheld[t] = "none" /\ CanReadLock(t)
+    /\ rl' = rl \cup {t} /\ gheld' = [gheld EXCEPT ![t] = "r"]
+    /\ Finish(t, val)
+    /\ UNCHANGED <<val, ver, wakers, woken, wl, ml, cState, cClones, owner, weak, subscribed, obsv>>
+
+DropGuardC(t) ==
+    /\ pc[t] = "op" /\ Cur(t) = "DropGuard" /\ gheld[t] # "none"
+    /\ IF gheld[t] = "w" THEN wl' = 0 /\ UNCHANGED rl ELSE rl' = rl \ {t} /\ UNCHANGED wl
+    /\ gheld' = [gheld EXCEPT ![t] = "none"]
+    /\ Finish(t, ROK)
+    /\ UNCHANGED <<val, ver, wakers, woken, ml, cState, cClones, owner, weak, subscribed, obsv>>
+
+GSetStart(t) ==     \* set through the write guard: op -> set:locked (the lock is already held)
+    /\ pc[t] = "op" /\ Cur(t) = "GSet" /\ gheld[t] = "w"
+    /\ pc' = [pc EXCEPT ![t] = "set:locked"]
+    /\ UNCHANGED <<val, ver, wakers, woken, rl, wl, ml, cState, cClones, owner, weak, subscribed, gheld, obsv, prog, res>>
+
+GetCall(t) ==       \* SharedObservable::get(): read lock, clone, unlock: no pause point
+    /\ pc[t] = "op" /\ Cur(t) = "Get" /\ owner[t] /\ gheld[t] = "none" /\ CanReadLock(t)
+    /\ Finish(t, val)
+    /\ UNCHANGED <<val, ver, wakers, woken, rl, wl, ml, cState, cClones, owner, weak, subscribed, gheld, obsv>>
 
 (* a thread that does not own a handle skips calls that need it (the driver does the same) *)
 SkipCall(t) ==
     /\ pc[t] = "op"
-    /\ \/ Cur(t) \in {"Set", "DropOwner", "Subscribe"} /\ ~owner[t]
+    /\ \/ Cur(t) \in {"Set", "DropOwner", "Subscribe", "Write", "Read", "Get"} /\ ~owner[t]
+       \/ Cur(t) \in {"Set", "Write", "Read", "Get", "DropOwner"} /\ owner[t] /\ gheld[t] # "none"
+       \/ Cur(t) = "GSet" /\ gheld[t] # "w"
+       \/ Cur(t) = "DropGuard" /\ gheld[t] = "none"
        \/ Cur(t) = "Upgrade" /\ (owner[t] \/ ~weak[t])
        \/ Cur(t) = "PollNext" /\ ~subscribed[t]
     /\ prog' = [prog EXCEPT ![t] = Tail(@)]
     /\ pc' = [pc EXCEPT ![t] = IF Len(prog[t]) = 1 THEN "done" ELSE "op"]
-    /\ UNCHANGED <<val, ver, wakers, woken, rl, wl, ml, cState, cClones, owner, weak, subscribed, obsv, res>>
+    /\ UNCHANGED <<val, ver, wakers, woken, rl, wl, ml, cState, cClones, owner, weak, subscribed, gheld, obsv, res>>
 
 (****************************** PollNext ************************************)
 PollStart(t) ==     \* op (or woken from park) -> poll:before_meta_lock (state read lock taken)
@@ -184,7 +223,7 @@ PollStart(t) ==     \* op (or woken from park) -> poll:before_meta_lock (state r
     /\ CanReadLock(t)
     /\ rl' = rl \cup {t} /\ woken' = woken \ {t}
     /\ pc' = [pc EXCEPT ![t] = "poll:before_meta_lock"]
-    /\ UNCHANGED <<val, ver, wakers, wl, ml, cState, cClones, owner, weak, subscribed, obsv, prog, res>>
+    /\ UNCHANGED <<val, ver, wakers, wl, ml, cState, cClones, owner, weak, subscribed, gheld, obsv, prog, res>>
 
 PollDecide(t) ==    \* poll:before_meta_lock -> result | poll:registered (metadata lock taken)
     /\ pc[t] = "poll:before_meta_lock" /\ ml = 0
@@ -194,13 +233,13 @@ PollDecide(t) ==    \* poll:before_meta_lock -> result | poll:registered (metada
        THEN /\ obsv' = [obsv EXCEPT ![t] = ver] /\ rl' = rl \ {t} /\ Finish(t, val) /\ UNCHANGED <<wakers, ml>>
        ELSE /\ wakers' = wakers \cup {t} /\ ml' = t
             /\ pc' = [pc EXCEPT ![t] = "poll:registered"] /\ UNCHANGED <<obsv, rl, prog, res>>
-    /\ UNCHANGED <<val, ver, woken, wl, cState, cClones, owner, weak, subscribed>>
+    /\ UNCHANGED <<val, ver, woken, wl, cState, cClones, owner, weak, subscribed, gheld>>
 
 PollPark(t) ==      \* poll:registered -> parked (locks released, Pending returned, thread parks)
     /\ pc[t] = "poll:registered"
     /\ ml' = 0 /\ rl' = rl \ {t}
     /\ pc' = [pc EXCEPT ![t] = "parked"]
-    /\ UNCHANGED <<val, ver, wakers, woken, wl, cState, cClones, owner, weak, subscribed, obsv, prog, res>>
+    /\ UNCHANGED <<val, ver, wakers, woken, wl, cState, cClones, owner, weak, subscribed, gheld, obsv, prog, res>>
 
 (******************************* Upgrade ************************************)
 UpgradeStart(t) ==  \* op -> upgrade:between | failed
@@ -208,31 +247,32 @@ UpgradeStart(t) ==  \* op -> upgrade:between | failed
     /\ IF cState > 0
        THEN cState' = cState + 1 /\ pc' = [pc EXCEPT ![t] = "upgrade:between"] /\ UNCHANGED <<prog, res>>
        ELSE UNCHANGED cState /\ Finish(t, RFAIL)
-    /\ UNCHANGED <<val, ver, wakers, woken, rl, wl, ml, cClones, owner, weak, subscribed, obsv>>
+    /\ UNCHANGED <<val, ver, wakers, woken, rl, wl, ml, cClones, owner, weak, subscribed, gheld, obsv>>
 
 UpgradeFinish(t) == \* upgrade:between -> done
     /\ pc[t] = "upgrade:between"
     /\ IF cClones > 0
        THEN cClones' = cClones + 1 /\ owner' = [owner EXCEPT ![t] = TRUE] /\ Finish(t, ROK) /\ UNCHANGED cState
        ELSE cState' = cState - 1 /\ Finish(t, RFAIL) /\ UNCHANGED <<cClones, owner>>
-    /\ UNCHANGED <<val, ver, wakers, woken, rl, wl, ml, weak, subscribed, obsv>>
+    /\ UNCHANGED <<val, ver, wakers, woken, rl, wl, ml, weak, subscribed, gheld, obsv>>
 
 (****************************** Subscribe ***********************************)
 SubscribeStart(t) == \* op -> subscribe:after_version
     /\ pc[t] = "op" /\ Cur(t) = "Subscribe" /\ owner[t] /\ CanReadLock(t) /\ ml = 0   \* version() reads the metadata
     /\ obsv' = [obsv EXCEPT ![t] = ver]
     /\ pc' = [pc EXCEPT ![t] = "subscribe:after_version"]
-    /\ UNCHANGED <<val, ver, wakers, woken, rl, wl, ml, cState, cClones, owner, weak, subscribed, prog, res>>
+    /\ UNCHANGED <<val, ver, wakers, woken, rl, wl, ml, cState, cClones, owner, weak, subscribed, gheld, prog, res>>
 
 SubscribeFinish(t) ==
     /\ pc[t] = "subscribe:after_version"
     /\ subscribed' = [subscribed EXCEPT ![t] = TRUE] /\ cState' = cState + 1
     /\ Finish(t, ROK)
-    /\ UNCHANGED <<val, ver, wakers, woken, rl, wl, ml, cClones, owner, weak, obsv>>
+    /\ UNCHANGED <<val, ver, wakers, woken, rl, wl, ml, cClones, owner, weak, gheld, obsv>>
 
 Step(t) ==
     \/ DropStart(t) \/ DropTryRead(t) \/ DropClose(t) \/ DropRelease(t) \/ UDropStart(t) \/ UDropClose(t)
     \/ SetStart(t) \/ SetStore(t) \/ SetWake(t) \/ SkipCall(t)
+    \/ WriteGuard(t) \/ ReadGuard(t) \/ DropGuardC(t) \/ GSetStart(t) \/ GetCall(t)
     \/ PollStart(t) \/ PollDecide(t) \/ PollPark(t)
     \/ UpgradeStart(t) \/ UpgradeFinish(t)
     \/ SubscribeStart(t) \/ SubscribeFinish(t)
